@@ -187,6 +187,12 @@ def check(req):
             if md != src:
                 at = next((i for i in range(min(len(md), len(src))) if md[i] != src[i]), min(len(md), len(src)))
                 return fail("text_markdown_differs", "first difference at byte %d: package %r source %r" % (at, md[max(0, at - 20):at + 40], src[max(0, at - 20):at + 40]))
+            # ... and the other direction: TextPack's main document is text.markdown; an image or css the asset table
+            # maps to assets/<path> (and text.html references under that path) must be referenced under that path there too
+            raw_md = content["text.markdown"]
+            for a in assets:
+                if b("assets/" + a["path"]) in main and b("assets/" + a["path"]) not in raw_md:
+                    return fail("text_markdown_asset_not_substituted", "asset %r -> assets/%s is referenced by text.html but text.markdown never references it" % (a["url"], a["path"]))
     return {"ok": True, "members": len(names)}
 
 
